@@ -20,8 +20,8 @@
 (*   k_exp  option 0.25 / 1 (accepted: in [0,1]) / 1.5 / abc               *)
 (*          metadata 0.35 / 0 (accepted) / -0.1 / k                        *)
 (*   (two decimals, the precision at which the reports state both values;  *)
-(*   "text" is a word or, in every other run, the spelling NaN / nan of     *)
-(*   "not a number", which a float parser accepts but is no number)        *)
+(*   "text" is, in turn, a word, the spelling NaN / nan of "not a number"  *)
+(*   - which a float parser accepts but is no number - or an empty value)  *)
 (*   loc    option absent | "PENINSULA"; metadata absent | "CANARIAS" |    *)
 (*          "MARTE"; ffile TRUE/FALSE                                      *)
 (*   red    option absent | valid | text; metadata absent | valid | text   *)
